@@ -107,9 +107,11 @@ Definition check_value (relaxed : bool) (st : clst) (item : bytes) : bool * clst
   end.
 
 (* strListGetItem(&list, ',', ...) iterated from pos = nullptr over the C string of the list.
-   delim[2] = " ,,\t\r\n" is skipped before an item; an item ends at an unquoted ','; inside
-   double quotes a backslash escapes the next byte.  The iteration as a whole is one pass: *)
-Definition is_lead (c : N) : bool := (c =? 32) || (c =? 44) || (c =? 9) || (c =? 13) || (c =? 10).
+   delim[2] = " ,,\t\r\n\v\f" (every xisspace() character and ',') is skipped before an item; an item
+   ends at an unquoted ','; inside double quotes a backslash escapes the next byte.  The iteration
+   as a whole is one pass: *)
+Definition is_lead (c : N) : bool :=
+  (c =? 32) || (c =? 44) || (c =? 9) || (c =? 13) || (c =? 10) || (c =? 11) || (c =? 12).
 Inductive sphase := Lead | Unq | Quo | Esc.
 Fixpoint split_items (ph : sphase) (acc : bytes) (l : bytes) : list bytes :=
   match l with
@@ -131,7 +133,8 @@ Fixpoint split_items (ph : sphase) (acc : bytes) (l : bytes) : list bytes :=
 Definition rtrim (l : bytes) : bytes := rev (snd (span c_isspace (rev l))).
 
 (* the while loop of checkList over the raw items: strListGetItem returns 0 — and the loop ends —
-   at the first item that is empty after rtrim, not only at the end of the string *)
+   when the item is empty after rtrim (since delim[2] covers all of xisspace this only happens at the
+   end of the string; ClenProofs.examined_all proves it) *)
 Fixpoint check_items (relaxed : bool) (st : clst) (items : list bytes) : clst :=
   match items with
   | [] => st
